@@ -1,0 +1,25 @@
+/*
+ *  Loop-contract annotations for deductive verification with CBMC.
+ *  They expand to nothing unless GUANZHI_GMSSL_VERIF is defined, which no
+ *  build of the library does: the compiled code is unchanged.
+ */
+
+#ifndef GMSSL_VERIF_H
+#define GMSSL_VERIF_H
+
+#ifdef GUANZHI_GMSSL_VERIF
+# define VERIF_LOOP_ASSIGNS(...)	__CPROVER_assigns(__VA_ARGS__)
+# define VERIF_LOOP_INVARIANT(...)	__CPROVER_loop_invariant(__VA_ARGS__)
+# define VERIF_LOOP_DECREASES(...)	__CPROVER_decreases(__VA_ARGS__)
+# define VERIF_LOOP_ENTRY(e)		__CPROVER_loop_entry(e)
+# define VERIF_SAME_OBJECT(a,b)		__CPROVER_same_object((a),(b))
+# define VERIF_OFFSET(p)		__CPROVER_POINTER_OFFSET(p)
+# define VERIF_OBJ_UPTO(p,n)		__CPROVER_object_upto((p),(n))
+# define VERIF_OBJ_WHOLE(p)		__CPROVER_object_whole(p)
+#else
+# define VERIF_LOOP_ASSIGNS(...)
+# define VERIF_LOOP_INVARIANT(...)
+# define VERIF_LOOP_DECREASES(...)
+#endif
+
+#endif
